@@ -97,14 +97,17 @@ def specs(tier="quick", syms=None, ranks=(1, 2, 3, 4), fermionic=(False, True)):
         for nd in ranks:
             if tier == "quick":
                 patterns = {(False,) * nd, tuple(bool(i % 2) for i in range(nd)), tuple(not bool(i % 2) for i in range(nd)), (True,) * nd}
-            else:
+            elif nd <= 3:
                 patterns = set(itertools.product((False, True), repeat=nd))
+            else:
+                patterns = {(False,) * nd, (True,) * nd, (False, True, False, True), (True, False, False, True), (False, False, True, True),
+                            (True, True, False, True)}
             for duals in sorted(patterns):
                 for charge in (model.combine(), NONTRIVIAL[sym]):
                     tabs = TABLES[sym][:nd]
                     if not all_sectors(model, duals, charge, tabs):
                         continue
-                    drops = ("none", "alternate") if tier == "quick" else ("none", "first", "alternate", "last")
+                    drops = ("none", "alternate") if tier == "quick" else ("none", "first", "alternate")
                     for drop in drops:
                         for fm in fermionic:
                             sp = Spec(sym, duals, charge, tabs, drop=drop, fermionic=fm, signs=(2 if fm else 0))
